@@ -9,7 +9,9 @@ LEVEL_TEXT = ("Proof + correspondence: Coq model of BaseFeatureWriter.setContext
               "_insert (marker alone / top / bottom / middle with block splitting, dependent features, lookups before the first "
               "inserted feature, definitions at the top) on an abstract feature file; theorem, for ALL feature files, generated "
               "feature lists and marker placements, with no hypothesis: the sequence of the user's statements after _insert equals "
-              "the sequence before; and a feature written without the marker is never in the todo list. The model is compared with "
+              "the sequence before; and a feature written without the marker is never in the todo list; which comment IS the marker "
+              "(optional whitespace, '# Automatic Code', anything -- anchored at the start) is Fea/Marker.v, compared with "
+              "re.match(INSERT_FEATURE_MARKER, .) on look-alike comments. The model is compared with "
               "the real setContext/_insert on generated feature files parsed by feaLib, and the leaf-preservation statement is "
               "evaluated in Coq on the real output. Observed on the implementation: user statements of the debug feature file in "
               "order, GSUB bytes identical with the default writers vs none, no duplicate of an unmarked hand-written feature, "
@@ -147,7 +149,33 @@ def run_insert(stmts, tags, feats, nl, nd):
     return out, sorted(todo), bool(gen_feats)
 
 
+def marker_section(ctx):
+    """which comments count as the insertion marker: re.match(INSERT_FEATURE_MARKER, text) against Fea/Marker.v"""
+    import re
+    from ufo2ft.featureWriters.baseFeatureWriter import INSERT_FEATURE_MARKER
+    rng = ctx.subrng("marker")
+    PIECES = ["# Automatic Code", "#", " ", "\t", "# automatic code", "# Automatic Cod", "e", "x", "## Automatic Code", "\x0b", "\r",
+              "# Automatic  Code", "Automatic Code", " # Automatic Code"]
+    cases, meta = [], []
+    for i in range(ctx.budget(200, 1500)):
+        text = "".join(rng.choice(PIECES) for _ in range(rng.randint(1, 4)))
+        if i < len(PIECES):
+            text = PIECES[i]
+        got = re.match(INSERT_FEATURE_MARKER, text) is not None
+        ctx.count(); ctx.klass("marker text: %s" % ("marker" if got else "not a marker"))
+        if "Automatic Code" in text and not got:
+            ctx.nontriv(("mk", text))
+        cases.append(G.tup(G.s(text), G.b(got)))
+        meta.append({"comment": text, "implementation_says_marker": got})
+    vals = ctx.coq_eval("From U2F Require Import Base.Prelude Fea.Marker.",
+                        "fun c : (str * bool) => if Bool.eqb (is_marker (fst c)) (snd c) then 3 else 2", cases, chunk=400, tag="Marker")
+    for v, case in zip(vals, meta):
+        if v is not None and v != 3:
+            ctx.corr_mismatch(case, "Gallina is_marker (Fea/Marker.v) differs from re.match(INSERT_FEATURE_MARKER, comment)")
+
+
 def explore(ctx):
+    marker_section(ctx)
     rng = ctx.subrng("insert")
     cases, meta = [], []
     for i in range(ctx.budget(300, 3000)):
